@@ -170,3 +170,15 @@ G7_contain = [
     r('Polygon2D.point_relationship', [POLY2, P2, Q], name='Polygon2D_point_relationship'),
 ]
 LAYERS.append(('G7_contain', G7_contain))
+
+G8_curve = [
+    r('LineSegment2D.point_at', [SEG2, Q], name='LineSegment2D_point_at'),
+    r('LineSegment3D.point_at', [SEG3, Q], name='LineSegment3D_point_at'),
+    r('LineSegment2D.p2', [SEG2], name='LineSegment2D_p2'),
+    r('LineSegment3D.p2', [SEG3], name='LineSegment3D_p2'),
+    r('LineSegment2D.midpoint', [SEG2], name='LineSegment2D_midpoint'),
+    r('LineSegment3D.split_with_plane', [SEG3, PLANE], name='LineSegment3D_split_with_plane'),
+    r('Arc2D.point_at', [ARC2, Q], name='Arc2D_point_at'),
+    r('Arc2D.angle', [ARC2], name='Arc2D_angle'),
+]
+LAYERS.append(('G8_curve', G8_curve))
